@@ -371,47 +371,9 @@ def run(ctx):
     ctx.floor("R4", len(packs), 3, "triangular packing sites in the FCHK writer")
     # the unpacking routine, evaluated: element k of the row-major lower triangle lands on (i, j) and (j, i)
     _check_triangle_unpacking(ctx)
-    # block-wise lower-triangular matrices of the Gaussian log
-    gl = prog.modules.get("iodata.formats.gaussianlog")
-    nblock = 0
-    if gl is not None:
-        for f in gl.funcs:
-            for lp in [n for n in f.own_nodes() if isinstance(n, (ast.While, ast.For))]:
-                inner = [n for s in lp.body for n in ast.walk(s) if isinstance(n, ast.For)]
-                stores = [n for s in lp.body for n in ast.walk(s) if isinstance(n, ast.Assign) and isinstance(n.targets[0], ast.Subscript) and isinstance(n.targets[0].slice, ast.Tuple)]
-                if not inner or not stores:
-                    continue
-                # block counter: the variable added to both subscripts
-                names = set.intersection(*[names_in(e_) for s in stores for e_ in s.targets[0].slice.elts]) if stores else set()
-                ctr = None
-                for nm in names:
-                    if isinstance(lp, ast.While) and nm in names_in(lp.test):
-                        ctr = nm
-                    if isinstance(lp, ast.For) and isinstance(lp.target, ast.Name) and lp.target.id == nm:
-                        ctr = nm
-                if ctr is None:
-                    continue
-                nblock += 1
-                size = f.posparams[1] if len(f.posparams) > 1 else None
-                step = None
-                bound_ok = False
-                if isinstance(lp, ast.While):
-                    t = lp.test
-                    bound_ok = isinstance(t, ast.Compare) and isinstance(t.ops[0], ast.Lt) and src_of(t.left) == ctr and src_of(t.comparators[0]) == size
-                    for s in lp.body:
-                        if isinstance(s, ast.AugAssign) and src_of(s.target) == ctr and isinstance(s.op, ast.Add) and isinstance(s.value, ast.Constant):
-                            step = s.value.value
-                else:
-                    it = lp.iter
-                    if isinstance(it, ast.Call) and getattr(it.func, "id", "") == "range" and len(it.args) == 3 and isinstance(it.args[2], ast.Constant):
-                        step = it.args[2].value
-                        bound_ok = src_of(it.args[0]) == "0" and src_of(it.args[1]) == size
-                where = f"{f.module.relpath}:{lp.lineno}"
-                if bound_ok and step == 5:
-                    ctx.ok("R4", f"{f.name}: blocks of 5 columns while {ctr} < {size}", where)
-                else:
-                    ctx.violate("R4", f"{f.name}: the block loop does not run over {ctr} = 0, 5, 10, ... < {size} (bound `{src_of(lp.test) if isinstance(lp, ast.While) else src_of(lp.iter)}`, step {step}): a matrix whose size is a multiple of 5 reads one block too many / few", f, lp, construct=f"block loop {src_of(lp.test) if isinstance(lp, ast.While) else src_of(lp.iter)} step {step}")
-    ctx.floor("R4", nblock, 1, "block-wise matrix readers")
+    # block-wise lower-triangular matrices of the Gaussian log: the reader advances by the block width and stops at the
+    # matrix size -- evaluated for sizes that are and are not multiples of five (a sentinel line follows the matrix)
+    check_gaussianlog_blocks(ctx, "R4", sizes=(5, 7, 10))
 
     # ------------------------------------------------------------------ R5
     ctx.rule("R5", "quadrupole components of the file are stored in the object's order xx xy xz yy yz zz (reader statements evaluated)", "multipole components come back permuted")
@@ -1059,7 +1021,7 @@ def check_charmm_record(ctx, rid):
         ctx.ok(rid, "CHARMM crd atom records: residue number, names, coordinates, segment, residue id and weight arrive in their slots", f"{f.module.relpath}:{f.lineno}")
 
 
-def check_gaussianlog_blocks(ctx, rid):
+def check_gaussianlog_blocks(ctx, rid, sizes=(7,)):
     """Gaussian-log lower-triangular matrices printed in blocks of five columns: the block reader is evaluated on a
     model stream for a 7 x 7 matrix whose printed numbers spell their own (row, column); the result must hold every
     number at (row, column) and at (column, row)."""
@@ -1072,7 +1034,16 @@ def check_gaussianlog_blocks(ctx, rid):
         raise AnalysisError(f"gaussianlog: expected one _load_twoindex* helper, found {[g.name for g in cands]}")
     f = cands[0]
     licls = prog.cls("iodata.utils.LineIterator")
-    n = 7
+    for n in sizes:
+        if not _gaussianlog_blocks_one(ctx, rid, prog, f, licls, n):
+            return
+    ctx.ok(rid, f"Gaussian-log matrix blocks: lower triangles of size {', '.join(str(k) for k in sizes)} in five-column blocks (D exponents; sizes that are and are not multiples of five) are unpacked to the right elements, mirrored, and exactly the matrix is consumed", f"{f.module.relpath}:{f.lineno}")
+
+
+def _gaussianlog_blocks_one(ctx, rid, prog, f, licls, n):
+    from ..accessors import AccessorEval, Raised, Rec
+    from ..symarr import NotSymbolic
+
     val = lambda i, j: (i + 1) + (j + 1) / 100.0  # row.column, e.g. 6.03
     lines = []
     for b0 in range(0, n, 5):
@@ -1081,20 +1052,21 @@ def check_gaussianlog_blocks(ctx, rid):
         for i in range(b0, n):
             vals = [val(i, j) for j in cols if j <= i]
             lines.append(f"{i + 1:7d} " + "".join(f"{v:14.6E}".replace("E", "D") for v in vals) + "\n")
+    lines.append(" SENTINEL: the text that follows the matrix\n")
     lit = Rec(licls, filename="F", fh=iter(lines), lineno=0, stack=[])
-    ev = AccessorEval(prog, licls, limit=20000)
+    ev = AccessorEval(prog, licls, limit=40000)
     ev.module = f.module
     try:
         res = np.asarray(ev.run_free(f, [lit, n], {}), dtype=float)
     except Raised as exc:
-        ctx.violate(rid, f"Gaussian-log matrix blocks: the reader raises {exc.args[0]} on a well-formed 7 x 7 lower triangle in two blocks", f, f.node, construct="gaussianlog blocks: raises")
-        return
+        ctx.violate(rid, f"Gaussian-log matrix blocks: the reader raises {exc.args[0]} on a well-formed {n} x {n} lower triangle in {(n + 4) // 5} block(s)", f, f.node, construct=f"gaussianlog blocks: raises (n = {n})")
+        return False
     except NotSymbolic as exc:
         raise AnalysisError(f"{f.qualname} is outside the evaluation whitelist: {exc}") from exc
     bad = None
-    rest = [x for x in lit.fields["fh"]]
-    if rest or lit.fields["stack"]:
-        bad = f"{len(rest) + len(lit.fields['stack'])} line(s) of the matrix are left unread"
+    rest = list(reversed(lit.fields["stack"])) + [x for x in lit.fields["fh"]]
+    if len(rest) != 1:
+        bad = f"size {n}: " + (f"{len(rest) - 1} line(s) of the matrix are left unread" if len(rest) > 1 else "the reader consumes the line that follows the matrix (one block too many)")
     for i in range(n):
         for j in range(i + 1):
             if bad:
@@ -1105,8 +1077,8 @@ def check_gaussianlog_blocks(ctx, rid):
                 bad = f"the mirror element ({j + 1}, {i + 1}) is {res[j, i]:.2f}; the matrix is symmetric, expected {val(i, j):.2f}"
     if bad:
         ctx.violate(rid, f"Gaussian-log matrix blocks, {bad}", f, f.node, construct=f"gaussianlog blocks: {bad}"[:160])
-    else:
-        ctx.ok(rid, "Gaussian-log matrix blocks: a 7 x 7 lower triangle in two five-column blocks (D exponents) is unpacked to the right elements and mirrored", f"{f.module.relpath}:{f.lineno}")
+        return False
+    return True
 
 
 def check_grid_data_order(ctx, rid):
